@@ -329,8 +329,9 @@ func (ex *Exec) choose(n int, what string) int {
 type sendWait struct {
 	v     value
 	taken bool
-	sel   *selWait // set when the sender is a goroutine parked in a select
+	sel   *selWait    // set when the sender is a goroutine parked in a select
 	idx   int
+	to    *recvWaiter // set when the send completed by handing the value to this blocked receiver
 }
 
 // selWait is one blocked select statement; its send cases are registered on
@@ -340,12 +341,41 @@ type selWait struct {
 	chosen int
 }
 
+// recvWaiter is one blocked receive operation (a plain receive or a select
+// with receive cases), registered on every channel it could receive from. A
+// sender that completes an unbuffered send because this receiver is waiting
+// claims it: the receiver no longer counts as waiting on any channel and, when
+// it runs again, completes with the claimed case (as the Go runtime completes
+// the select of the goroutine it hands the value to).
+type recvWaiter struct {
+	claimedBy *channel
+	gone      bool // the receiver stopped waiting
+}
+
 type channel struct {
-	buf         []value
-	cap         int
-	closed      bool
-	sendq       []*sendWait
-	recvWaiting int
+	buf    []value
+	cap    int
+	closed bool
+	sendq  []*sendWait
+	recvq  []*recvWaiter
+}
+
+// waitingReceiver returns the first receiver that is blocked on c and has not
+// been handed a value yet.
+func (c *channel) waitingReceiver() *recvWaiter {
+	q := c.recvq[:0]
+	var first *recvWaiter
+	for _, w := range c.recvq {
+		if w.gone || w.claimedBy != nil {
+			continue
+		}
+		if first == nil {
+			first = w
+		}
+		q = append(q, w)
+	}
+	c.recvq = q
+	return first
 }
 
 func (ex *Exec) newChan(n int) *channel { return &channel{cap: n} }
@@ -362,9 +392,22 @@ func (c *channel) prune() {
 	c.sendq = q
 }
 
-func (c *channel) recvReady() bool {
+// firstSendFor returns the index of the first pending send that receiver me
+// (nil = a receiver that was not blocked when the send happened) may take.
+func (c *channel) firstSendFor(me *recvWaiter) int {
+	for i, s := range c.sendq {
+		if s.to == nil || s.to == me {
+			return i
+		}
+	}
+	return -1
+}
+
+func (c *channel) recvReady() bool { return c.recvReadyFor(nil) }
+
+func (c *channel) recvReadyFor(me *recvWaiter) bool {
 	c.prune()
-	return len(c.buf) > 0 || len(c.sendq) > 0 || c.closed
+	return len(c.buf) > 0 || c.firstSendFor(me) >= 0 || c.closed
 }
 
 func (c *channel) sendReady() bool {
@@ -375,10 +418,12 @@ func (c *channel) sendReady() bool {
 		return len(c.buf) < c.cap
 	}
 	c.prune()
-	return c.recvWaiting > 0 && len(c.sendq) == 0
+	return c.waitingReceiver() != nil && len(c.sendq) == 0
 }
 
-func (c *channel) takeRecv() (value, bool) {
+func (c *channel) takeRecv() (value, bool) { return c.takeRecvFor(nil) }
+
+func (c *channel) takeRecvFor(me *recvWaiter) (value, bool) {
 	c.prune()
 	if len(c.buf) > 0 {
 		v := c.buf[0]
@@ -392,9 +437,9 @@ func (c *channel) takeRecv() (value, bool) {
 		}
 		return v, true
 	}
-	if len(c.sendq) > 0 {
-		s := c.sendq[0]
-		c.sendq = c.sendq[1:]
+	if i := c.firstSendFor(me); i >= 0 {
+		s := c.sendq[i]
+		c.sendq = append(c.sendq[:i:i], c.sendq[i+1:]...)
 		s.taken = true
 		if s.sel != nil {
 			s.sel.done = true
@@ -431,12 +476,14 @@ func (ex *Exec) chanRecv(c *channel, commaOk bool, elemT types.Type) value {
 	if c == nil {
 		ex.block(func() bool { return false }, "receive from nil channel")
 	}
+	var w *recvWaiter
 	if !c.recvReady() {
-		c.recvWaiting++
-		ex.block(c.recvReady, "chan receive")
-		c.recvWaiting--
+		w = &recvWaiter{}
+		c.recvq = append(c.recvq, w)
+		ex.block(func() bool { return c.recvReadyFor(w) }, "chan receive")
+		w.gone = true
 	}
-	v, ok := c.takeRecv()
+	v, ok := c.takeRecvFor(w)
 	if !ok {
 		v = zero(elemT)
 	}
@@ -472,13 +519,14 @@ func (ex *Exec) selectOp(fr *frame, instr *ssa.Select) value {
 			cases[i].v = fr.get(st.Send)
 		}
 	}
+	var rw *recvWaiter // set once this select is blocked
 	ready := func() []int {
 		var r []int
 		for i, c := range cases {
 			if c.ch == nil {
 				continue
 			}
-			if c.send && c.ch.sendReady() || !c.send && c.ch.recvReady() {
+			if c.send && c.ch.sendReady() || !c.send && c.ch.recvReadyFor(rw) {
 				r = append(r, i)
 			}
 		}
@@ -491,22 +539,19 @@ func (ex *Exec) selectOp(fr *frame, instr *ssa.Select) value {
 			chosen = -1
 		} else {
 			sel := &selWait{chosen: -1}
+			rw = &recvWaiter{}
 			for i, c := range cases {
 				if c.ch == nil {
 					continue
 				}
 				if !c.send {
-					c.ch.recvWaiting++
+					c.ch.recvq = append(c.ch.recvq, rw)
 				} else if c.ch.cap == 0 && !c.ch.closed {
 					c.ch.sendq = append(c.ch.sendq, &sendWait{v: copyVal(c.v), sel: sel, idx: i})
 				}
 			}
 			ex.block(func() bool { return sel.done || len(ready()) > 0 }, "select")
-			for _, c := range cases {
-				if c.ch != nil && !c.send {
-					c.ch.recvWaiting--
-				}
-			}
+			rw.gone = true
 			if sel.done {
 				// a receiver took one of our sends: that case completed
 				r := tuple{sel.chosen, false}
@@ -524,6 +569,16 @@ func (ex *Exec) selectOp(fr *frame, instr *ssa.Select) value {
 				}
 			}
 			rs = ready()
+			if rw.claimedBy != nil {
+				// a sender handed this select a value: that case completes it
+				rs = nil
+				for i, c := range cases {
+					if !c.send && c.ch == rw.claimedBy {
+						rs = []int{i}
+						break
+					}
+				}
+			}
 		}
 	}
 	if len(rs) > 0 {
@@ -545,10 +600,16 @@ func (ex *Exec) selectOp(fr *frame, instr *ssa.Select) value {
 			if c.ch.cap > 0 {
 				c.ch.buf = append(c.ch.buf, copyVal(c.v))
 			} else {
-				c.ch.sendq = append(c.ch.sendq, &sendWait{v: copyVal(c.v)})
+				// the send completes because a receiver is blocked on the
+				// channel: the value is handed to that receiver and nobody else
+				w := c.ch.waitingReceiver()
+				if w != nil {
+					w.claimedBy = c.ch
+				}
+				c.ch.sendq = append(c.ch.sendq, &sendWait{v: copyVal(c.v), to: w})
 			}
 		} else {
-			recvVal, recvOk = c.ch.takeRecv()
+			recvVal, recvOk = c.ch.takeRecvFor(rw)
 		}
 	}
 	r[1] = recvOk
